@@ -46,12 +46,12 @@ class ClassModel:
                 continue
             if isinstance(st, ast.FunctionDef):
                 d = _decos(st)
-                if d - {'staticmethod', 'classmethod'}:
+                if d - {'staticmethod', 'classmethod', 'property'}:
                     self.ok = False
                 if st.name.startswith('__') and st.name.endswith('__') and st.name not in ('__init__', '__post_init__'):
                     self.ok = False
                 self.methods[st.name] = st
-                self.kinds[st.name] = 'static' if 'staticmethod' in d else 'class' if 'classmethod' in d else 'inst'
+                self.kinds[st.name] = 'static' if 'staticmethod' in d else 'class' if 'classmethod' in d else 'prop' if 'property' in d else 'inst'
             elif isinstance(st, ast.AnnAssign) and isinstance(st.target, ast.Name):
                 if self.is_dataclass:
                     dflt = st.value
@@ -70,6 +70,15 @@ class ClassModel:
                 self.consts.append((st.targets[0].id, st.value))
             else:
                 self.ok = False
+
+    def fluent(self, name: str) -> bool:
+        """every `return` of the instance method is `return self` (method chaining)"""
+        m = self.methods.get(name)
+        if m is None or self.kinds.get(name) != 'inst' or not m.args.args:
+            return False
+        me = m.args.args[0].arg
+        rets = [n for n in ast.walk(m) if isinstance(n, ast.Return)]
+        return bool(rets) and all(isinstance(r.value, ast.Name) and r.value.id == me for r in rets)
 
     def init_def(self) -> Optional[ast.FunctionDef]:
         """the constructor as a function with `self` first (synthesised for dataclasses)"""
@@ -131,6 +140,9 @@ class _SelfRewriter(ast.NodeTransformer):
 
     def visit_Attribute(self, node: ast.Attribute):
         if isinstance(node.value, ast.Name) and self.selfname and node.value.id == self.selfname:
+            if self.cm.kinds.get(node.attr) == 'prop' and isinstance(node.ctx, ast.Load):
+                self.used_methods.add(node.attr)
+                return ast.copy_location(ast.Call(func=ast.Name(id=f'__X{self.k}_{node.attr}', ctx=ast.Load()), args=[], keywords=[]), node)
             return ast.copy_location(ast.Name(id=f'{OBJ_PREFIX}{self.k}_{node.attr}', ctx=node.ctx), node)
         return self.generic_visit(node)
 
@@ -150,8 +162,12 @@ def _method_helper(cm: ClassModel, name: str, k: str):
     a = fn.args
     if a.vararg or a.kwarg or a.posonlyargs:
         return None
+    if cm.fluent(name):
+        for r in ast.walk(fn):
+            if isinstance(r, ast.Return):
+                r.value = None
     selfname = clsname = None
-    if kind == 'inst':
+    if kind in ('inst', 'prop'):
         if not a.args:
             return None
         selfname = a.args[0].arg
@@ -182,6 +198,7 @@ class ObjectInliner:
         self.classes = classes
         self.counter = 0
         self.helpers: Dict[str, ast.FunctionDef] = {}
+        self.tmp_cls: Dict[str, ClassModel] = {}
         self.done = 0
 
     # -- helpers for one object ------------------------------------------------------------------------------------------
@@ -218,16 +235,17 @@ class ObjectInliner:
                         continue
                     for c in self._header_calls(st):
                         f = c.func
-                        if isinstance(f, ast.Attribute) and isinstance(f.value, ast.Call) and isinstance(f.value.func, ast.Name) \
-                                and f.value.func.id in self.classes and f.attr in self.classes[f.value.func.id].methods:
-                            self.counter += 1
-                            tmp = f'__t{self.counter}'
-                            asg = ast.Assign(targets=[ast.Name(id=tmp, ctx=ast.Store())], value=f.value, type_comment=None)
-                            ast.copy_location(asg, st)
-                            ast.fix_missing_locations(asg)
-                            new_blk.append(asg)
-                            f.value = ast.copy_location(ast.Name(id=tmp, ctx=ast.Load()), f.value)
-                            changed = True
+                        if not isinstance(f, ast.Attribute):
+                            continue
+                        flat = self._flatten(f.value, st)
+                        if flat is None:
+                            continue
+                        pre, nm, cm_ = flat
+                        if f.attr not in cm_.methods or (not pre and isinstance(f.value, ast.Name)):
+                            continue
+                        new_blk += pre
+                        f.value = ast.copy_location(ast.Name(id=nm, ctx=ast.Load()), f.value)
+                        changed = True
                     new_blk.append(st)
                 setattr(holder, fld, new_blk)
         # (a) v = _X(args)
@@ -257,6 +275,12 @@ class ObjectInliner:
                         break
                     if p.attr in cm.methods:
                         pp = parents.get(id(p))
+                        if cm.kinds[p.attr] == 'prop':
+                            if not isinstance(p.ctx, ast.Load):
+                                uses_ok = False
+                                break
+                            used_methods.add(p.attr)
+                            continue
                         if not (isinstance(pp, ast.Call) and pp.func is p) or cm.kinds[p.attr] == 'class':
                             uses_ok = False
                             break
@@ -284,6 +308,8 @@ class ObjectInliner:
                     return node
 
                 def visit_Attribute(s, node):
+                    if isinstance(node.value, ast.Name) and node.value.id == v and cm.kinds.get(node.attr) == 'prop':
+                        return ast.copy_location(ast.Call(func=ast.Name(id=f'__X{k}_{node.attr}', ctx=ast.Load()), args=[], keywords=[]), node)
                     if isinstance(node.value, ast.Name) and node.value.id == v and node.attr not in cm.methods:
                         return ast.copy_location(ast.Name(id=f'{OBJ_PREFIX}{k}_{node.attr}', ctx=node.ctx), node)
                     return s.generic_visit(node)
@@ -313,6 +339,32 @@ class ObjectInliner:
                     n.func = ast.copy_location(ast.Name(id=name, ctx=ast.Load()), n.func)
                     changed = True
         return changed
+
+    def _flatten(self, recv, at):
+        """receiver expression `_X(a).m1(b).m2(c)` (m1, m2 fluent) -> ([t = _X(a); t.m1(b); t.m2(c)], 't', class model)"""
+        if isinstance(recv, ast.Call) and isinstance(recv.func, ast.Name) and recv.func.id in self.classes:
+            self.counter += 1
+            tmp = f'__t{self.counter}'
+            asg = ast.Assign(targets=[ast.Name(id=tmp, ctx=ast.Store())], value=recv, type_comment=None)
+            ast.copy_location(asg, at)
+            ast.fix_missing_locations(asg)
+            self.tmp_cls[tmp] = self.classes[recv.func.id]
+            return [asg], tmp, self.classes[recv.func.id]
+        if isinstance(recv, ast.Name) and recv.id in self.tmp_cls:
+            return [], recv.id, self.tmp_cls[recv.id]
+        if isinstance(recv, ast.Call) and isinstance(recv.func, ast.Attribute):
+            inner = self._flatten(recv.func.value, at)
+            if inner is None:
+                return None
+            pre, nm, cm_ = inner
+            if not cm_.fluent(recv.func.attr):
+                return None
+            call = ast.Expr(value=ast.Call(func=ast.Attribute(value=ast.Name(id=nm, ctx=ast.Load()), attr=recv.func.attr, ctx=ast.Load()),
+                                           args=recv.args, keywords=recv.keywords))
+            ast.copy_location(call, at)
+            ast.fix_missing_locations(call)
+            return pre + [call], nm, cm_
+        return None
 
     @staticmethod
     def _header_calls(st):
